@@ -5,7 +5,7 @@ import os, json, subprocess
 from .. import common as C
 
 SETS = {
-    "quick": [("verifying",), ("decrypting",)],
+    "quick": [("verifying",), ("decrypting",), ("signing", "encrypting")],
     "thorough": [("verifying",), ("decrypting",), ("signing",), ("encrypting",), ("id",), ("pie-wrap",), ("pbkw",), ("pke",), ("signing", "encrypting")],
 }
 CRATES = {"paseto-v1": "v1", "paseto-v2": "v2", "paseto-v3": "v3", "paseto-v4": "v4"}
@@ -16,7 +16,7 @@ def run(tier, seed, d):
     mat = os.path.join(d, "material.json")
     C.harness(["feat-material", "--out", mat, "--seed", str(seed)], timeout=1800)
     probe_dir = os.path.join(C.ROOT, "featprobe")
-    crates = list(CRATES) if tier == "thorough" else [list(CRATES)[seed % 4], list(CRATES)[(seed + 1) % 4]]
+    crates = list(CRATES)
     for crate in crates:
         ver = CRATES[crate]
         for fs in SETS[tier]:
